@@ -67,6 +67,12 @@ package getsvc
 //@ callrule c23_recovery_resumes_in_the_failed_part in (*Service).copyECObjectRangeByParts
 //@   callee ec.DecodeRange
 //@   requires [recovery_starts_at_the_failed_part_after_what_was_written] a1 == failedIdx() && (wide(origFirstOff()) + wide(failedWritten()) < 18446744073709551616 ==> wide(firstPartOff) == ite(failedIdx() != origFirstIdx(), 0, wide(origFirstOff())) + wide(failedWritten()))
+// What the recovery writes of each recovered part: from the resume offset in the first part
+// (the beginning of every other part) up to the requested end in the last part (the end of
+// every other part) - also when the first part is the last one.
+//@ callrule c23_recovered_part_window in (*Service).copyECObjectRangeByParts
+//@   callee (get.ChunkWriter).WriteChunk
+//@   requires [window_of_the_part_between_the_resume_offset_and_the_requested_end] samearray(a0, parts[partIdx]) && sliceoff(a0, parts[partIdx]) == ite(partIdx == failedIdx(), int(firstPartOff), 0) && sliceoff(a0, parts[partIdx]) + len(a0) == ite(partIdx == lastPartIdx, int(lastPartTo), int(fullPartLen))
 //@ func (*Service).copyECObjectRangeByParts
 //@   opt wide=80
 
